@@ -125,7 +125,7 @@ def run(tier, seed, replay=None):
     nplans = len(prow)
 
     # ---- transparency
-    nparts, nq = (24, 30) if quick else (150, 60)
+    nparts, nq = (24, 30) if quick else (400, 60)
     batches = [("plain", ["-seed", seed * 10 + 1]), ("directives", ["-seed", seed * 10 + 2, "-dirs"])]
     if not quick:
         batches += [("plain-2", ["-seed", seed * 10 + 3, "-dup", 50]), ("directives-2", ["-seed", seed * 10 + 4, "-dirs", "-dup", 50])]
